@@ -69,27 +69,82 @@ def d2_all_filters():
         yield frozenset().union(*combo)
 
 
-def mc_module(depth, accepts, apexes, kinds, theorem_depth):
+def quadrant_gap(acc, depth):
+    """Input stratification only: does the filtered pyramid (root apex) have a tile that lacks a child at a quadrant where an
+    EARLIER tile of the same level (in enumeration order) had one?  Then the reduction iterator meets a level record whose
+    slot was last written for another parent."""
+    seen_at = {}
+    found = [False]
+
+    def rec(t):
+        n = t[0]
+        have = []
+        if n < depth:
+            for i, k in enumerate(kids(t)):
+                if k in acc:
+                    rec(k)
+                    have.append(i)
+        prev = seen_at.setdefault(n, set())
+        if n < depth and any(i in prev and i not in have for i in range(4)):
+            found[0] = True
+        prev.update(have)
+    for t in level(1):
+        if depth >= 1 and t in acc:
+            rec(t)
+    return found[0]
+
+
+def stratified(accepts, depth, n_gap, n_other, rng):
+    """n_gap filters with a quadrant gap and n_other without, spread over the number of accepted positions."""
+    pool = sorted(accepts, key=lambda a: (len(a), sorted(a)))
+    gap = [a for a in pool if quadrant_gap(a, depth)]
+    oth = [a for a in pool if not quadrant_gap(a, depth)]
+
+    def spread(lst, n):
+        if len(lst) <= n:
+            return list(lst)
+        off = rng.randrange(max(1, len(lst) // n))
+        return [lst[min(len(lst) - 1, off + (i * len(lst)) // n)] for i in range(n)]
+    return spread(gap, n_gap) + spread(oth, n_other)
+
+
+CB_POLICIES = ["falsy", "truthy", "mixed", "array", "big"]
+ENV_PLAIN = ["none", False]
+
+
+def mc_module(depth, accepts, apexes, kinds, theorem_depth, opt_accepts=(), cb_accepts=()):
+    """opt_accepts / cb_accepts: the filters (and, with them, the generic pyramid) that are also explored with asserts
+    stripped / under every callback-return policy (spec/ReduceEnv.tla)."""
     defs = [
         ("MCAccept", tla.lit(set(accepts))),
         ("MCApex", tla.lit(set(apexes))),
         ("MCKinds", tla.lit(set(kinds))),
-        'Emit == phase = "done" => PrintT(<<"R", ToJson([kind |-> kind, acc |-> acc, apex |-> apex, out |-> out, final |-> final])>>)',
+        ("MCOptAcc", tla.lit(set(opt_accepts))),
+        ("MCCbAcc", tla.lit(set(cb_accepts))),
+        ("MCCbEnvs", tla.lit(set((pol, False) for pol in CB_POLICIES))),
+        'MCEnvOf(k, A, a) == {<<"none", FALSE>>}'
+        ' \\cup (IF MCOptAcc # {} /\\ (k = "generic" \\/ A \\in MCOptAcc) THEN {<<"none", TRUE>>} ELSE {})'
+        ' \\cup (IF MCCbAcc # {} /\\ (k = "generic" \\/ A \\in MCCbAcc) THEN MCCbEnvs ELSE {})',
+        'Emit == phase = "done" => PrintT(<<"R", ToJson([kind |-> kind, acc |-> acc, apex |-> apex, out |-> out, final |-> final, '
+        'env |-> env, rets |-> IF env[1] = "none" THEN <<>> ELSE Rets])>>)',
     ]
     if theorem_depth:
         defs.append("ASSUME RelationsAgree(%d) /\\ GeneratePosOK(%d)" % (theorem_depth, min(theorem_depth, 3)))
-    return tla.module("MCReduce", ["Reduce", "Json"], defs)
+    return tla.module("MCReduce", ["ReduceEnv", "Json"], defs)
 
 
-CFG = """SPECIFICATION Spec
+CFG = """SPECIFICATION SpecEnv
 CONSTANTS
  Depth = %d
  AcceptSets <- MCAccept
  Apexes <- MCApex
  Kinds <- MCKinds
+ EnvOf <- MCEnvOf
 INVARIANT AssertsHold
 INVARIANT DoneOK
 INVARIANT StackShape
+INVARIANT EnvTypeOK
+INVARIANT EnvBlind
 INVARIANT Emit
 CHECK_DEADLOCK FALSE
 """
@@ -145,8 +200,18 @@ def _geo_filters(depth, acc):
     return out
 
 
-def replay_case(args):
-    """Returns a list of (severity, key, message); severity 'V' = property monitor failed, 'D' = drift."""
+def _raised_in_tree(e):
+    """Was the exception raised by a frame of the tree under test (as opposed to this harness)?"""
+    import traceback
+    from lib.core import REPO
+    tb = traceback.extract_tb(e.__traceback__)
+    return bool(tb) and os.path.abspath(tb[-1].filename).startswith(os.path.abspath(REPO) + os.sep)
+
+
+def replay_case(args, lean=False, tag=""):
+    """Returns a list of (severity, key, message); severity 'V' = property monitor failed, 'D' = drift.
+    lean: enumeration, counts, serial visits and generator only (what the child interpreter started with -O runs);
+    tag: prefix of the monitor keys naming the interpreter configuration."""
     depth, rec = args
     repo.setup()
     import io
@@ -163,7 +228,7 @@ def replay_case(args):
     case = {"kind": kind, "depth": depth, "acc": sorted(acc), "apex": apex}
 
     def bad(sev, key, msg):
-        res.append((sev, "%s:%s" % (kind, key), msg, case))
+        res.append((sev, "%s:%s%s" % (kind, tag, key), ("[%s] " % tag.rstrip(":") if tag else "") + msg, case))
 
     exp_pos = [tuple(o["pos"]) for o in out]
     exp_leaves = [tuple(o["pos"]) for o in out if o["leaf"]]
@@ -202,8 +267,9 @@ def replay_case(args):
                     expd = [token.get(k, -1) for k in kids(pt)]
                     if list(data) != expd:
                         bad("D", "iterator-child-data", "child data of %s is %s, expected the children's values %s" % (pt, list(data), expd))
-                    if len(riter._levels) != o["nlev"]:
-                        bad("D", "levels-depth", "stack depth %d after %s, spec %d" % (len(riter._levels), pt, o["nlev"]))
+                    lvls = getattr(riter, "_levels", None)
+                    if lvls is not None and len(lvls) != o["nlev"]:
+                        bad("D", "levels-depth", "stack depth %d after %s, spec %d" % (len(lvls), pt, o["nlev"]))
                 token[pt] = i
                 riter.set_data(i)
                 i += 1
@@ -216,6 +282,10 @@ def replay_case(args):
                     bad("V", "iterator-result", "result() = %r, expected %r" % (r, exp_r))
         except AssertionError as e:
             bad("V", "iterator-assert", "iterator assertion failed after %s: %r" % (got[-3:], e))
+        except Exception as e:  # noqa
+            if not _raised_in_tree(e):
+                raise
+            bad("V", "iterator-error", "the enumeration stopped after %s with %r" % (got[-3:], e))
         # (2) counts
         for name, key in (("count_leaf_tiles", "lf"), ("count_live_tiles", "lv"), ("count_operations", "op")):
             p = _build(kind, depth, acc, apex, plain)
@@ -253,7 +323,7 @@ def replay_case(args):
         # Cases with a "gap" (a tile the filter accepts while it rejects all four children) on the level above the leaves,
         # where a parallel walk seeds its queue, are always taken; of the others, a fixed fraction
         gap = any(q_[0] == depth - 1 and q_ in acc and not any(k in acc for k in kids(q_)) for q_ in acc) if depth >= 2 else False
-        if depth >= 1 and (gap or (hash((kind, tuple(sorted(acc)), apex)) % PAR_FRACTION == 0)):
+        if depth >= 1 and not lean and (gap or (hash((kind, tuple(sorted(acc)), apex)) % PAR_FRACTION == 0)):
             from lib import simrun
             for what, expv in (("walk", exp_ops), ("visit_leaves", exp_leaves)):
                 p = _build(kind, depth, acc, apex, plain)
@@ -271,7 +341,7 @@ def replay_case(args):
                     bad("D", "%s-parallel" % what, "%s with 2 workers ended as %s under the scheduler (C01 / C03 judge termination)" % (what, o2.status))
         # (3a'') the filter given as a callable OBJECT that happens to be falsy (a collection of footprint boxes, empty or not,
         # whose __call__ decides by position): "no filter" is `None`, nothing else
-        if kind == "toast" and not plain and apex == ROOT:
+        if kind == "toast" and not plain and apex == ROOT and not lean:
             class Boxes(list):
                 def __call__(self, tile):
                     return tuple(tile.pos) in acc
@@ -286,7 +356,7 @@ def replay_case(args):
                     bad("V", "falsy-filter:" + name, "[filter = a callable object whose truth value is False] %s() = %r, spec %r" % (name, v, fin[key]))
         # (3b) the same filter decided from the tile's GEOMETRY (as footprint filters do) in each coordinate system: the
         # pyramid must show its filter tiles of its own coordinate system everywhere - counts, leaf visits and walks
-        if kind == "toast" and not plain and depth >= 1:
+        if kind == "toast" and not plain and depth >= 1 and not lean:
             for csname, geo in _geo_filters(depth, acc):
                 def build():
                     from toasty.pyramid import Pyramid
@@ -319,6 +389,127 @@ def replay_case(args):
         if g[:len(exp_pos)] != exp_pos:
             bad("V", "generator-order", "generator yields %s..., spec %s" % (g[:len(exp_pos) + 2], exp_pos))
     return res, len(exp_pos), (kind, tuple(sorted(acc)), apex)
+
+
+def _cb_value(cls, pos):
+    """A value of the class TLC names for this position; the variant within the class follows from the position."""
+    import numpy as np
+    i = pos[0] + pos[1] + 2 * pos[2]
+    if cls == "none":
+        return None
+    if cls == "falsy":
+        vs = [0, False, "", [], 0.0, (), b"", {}, np.bool_(False), np.int64(0), np.float32(0.0), np.zeros(())]
+    elif cls == "truthy":
+        vs = [1, True, "x", [0], -1, 2.5, (None,), np.bool_(True), np.int64(7), float("nan"), object(), tuple(pos)]
+    elif cls == "array":
+        vs = [np.arange(4), np.zeros((2, 2)), np.ones(3, dtype=bool)]
+    elif cls == "big":
+        vs = [bytes(70000), list(range(9000)), np.zeros(9000)]
+    else:
+        raise ValueError(cls)
+    return vs[i % len(vs)]
+
+
+def replay_cb(args):
+    """One configuration under one callback-return policy (spec/ReduceEnv.tla): the walk and the leaf visit call the user's
+    function as TLC's history says, whatever that function returns; the counts taken on the same object afterwards are TLC's;
+    serial and two-worker walks visit the same set."""
+    depth, rec = args
+    repo.setup()
+    import io
+    import contextlib
+    kind = rec["kind"]
+    acc = frozenset(tuple(p) for p in rec["acc"])
+    apex = tuple(rec["apex"])
+    out = rec["out"]
+    fin = rec["final"]
+    pol = rec["env"][0]
+    full = all(tuple(q) in acc for n in range(1, depth + 1) for q in level(n))
+    plain = kind == "toast" and full and apex == ROOT
+    ret_of = dict((tuple(o["pos"]), r) for o, r in zip(out, rec["rets"]))
+    exp_leaves = [tuple(o["pos"]) for o in out if o["leaf"]]
+    exp_ops = [tuple(o["pos"]) for o in out if (not o["leaf"]) and o["val"]["wk"]]
+    case = {"kind": kind, "depth": depth, "acc": sorted(acc), "apex": apex, "callback_returns": pol}
+    res = []
+
+    def bad(sev, key, msg):
+        res.append((sev, "%s:callback-return:%s" % (kind, key), "[callback returning %s values] %s" % (pol, msg), case))
+
+    def returning(lst):
+        def cb(pos, tile=None):
+            lst.append(tuple(pos))
+            return _cb_value(ret_of.get(tuple(pos), "none" if pol == "none" else ("falsy" if pol == "mixed" else pol)), tuple(pos))
+        return cb
+    sink = io.StringIO()
+    with contextlib.redirect_stdout(sink):
+        p = _build(kind, depth, acc, apex, plain)
+        walked = []
+        try:
+            p.walk(returning(walked), parallel=1)
+            if walked != exp_ops:
+                bad("V", "walk-serial", "walk called back for %s, expected %s" % (walked, exp_ops))
+        except Exception as e:  # noqa
+            if not _raised_in_tree(e):
+                raise
+            bad("V", "walk-serial", "walk raised %r after calling back for %s" % (e, walked[-3:]))
+        seen = []
+        try:
+            p.visit_leaves(returning(seen), parallel=1)
+            if seen != exp_leaves:
+                bad("V", "visit-leaves-serial", "visited leaves %s, expected %s" % (seen, exp_leaves))
+        except Exception as e:  # noqa
+            if not _raised_in_tree(e):
+                raise
+            bad("V", "visit-leaves-serial", "visit_leaves raised %r" % (e,))
+        for name, key in (("count_leaf_tiles", "lf"), ("count_live_tiles", "lv"), ("count_operations", "op")):
+            try:
+                v = getattr(p, name)()
+            except Exception as e:  # noqa
+                bad("V", name, "%s raised %r after the visits" % (name, e))
+                continue
+            if v != fin[key] and not (not out and v == 0):
+                bad("V", name, "after the visits %s() = %r, spec %r" % (name, v, fin[key]))
+        if depth >= 1:
+            from lib import simrun
+            for what, expv in (("walk", exp_ops), ("visit_leaves", exp_leaves)):
+                p = _build(kind, depth, acc, apex, plain)
+                got2 = []
+                cb2 = returning(got2)
+                if what == "walk":
+                    fn = lambda: p.walk(cb2, parallel=2)      # noqa: E731
+                else:
+                    fn = lambda: p.visit_leaves(cb2, parallel=2)      # noqa: E731
+                o2 = simrun.run(fn, simrun.pol_random(random.Random(len(acc) * 7919 + depth + len(pol))))
+                if o2.status == "returned" and sorted(got2) != sorted(expv):
+                    bad("V", "%s-parallel" % what, "%s with 2 workers visited %d tiles, spec %d (not in the spec's set: %s; missing: %s)"
+                        % (what, len(got2), len(expv), sorted(set(got2) - set(expv))[:4], sorted(set(expv) - set(got2))[:4]))
+                elif o2.status == "raised" and isinstance(o2.exc, Exception) and _raised_in_tree(o2.exc) and expv:
+                    bad("V", "%s-parallel" % what, "%s with 2 workers raised %r" % (what, o2.exc))
+                elif o2.status != "returned" and expv:
+                    bad("D", "%s-parallel" % what, "%s with 2 workers ended as %s under the scheduler (C01 / C03 judge termination)" % (what, o2.status))
+    return res, len(out), (kind, tuple(sorted(acc)), apex, pol)
+
+
+def child_main(path_in, path_out):
+    """Entry point of the child interpreter (started with -O by run()): the tree under test is imported exactly as in the
+    parent (lib/repo.py), the cases TLC emitted for opt = TRUE are replayed, the verdicts go back as JSON."""
+    import sys
+    info = repo.setup()
+    import toasty
+    from toasty import _libtoasty  # noqa: F401  (the compiled extension must load here too)
+    cases = json.load(open(path_in))
+    results = []
+    for depth, rec in cases:
+        res, nvis, key = replay_case((depth, rec), lean=True, tag="python-O:")
+        results.append([res, nvis])
+    stripped = True
+    try:
+        assert False
+    except AssertionError:
+        stripped = False
+    with open(path_out, "w") as f:
+        json.dump({"optimize": sys.flags.optimize, "asserts_stripped": stripped, "toasty": os.path.abspath(toasty.__file__),
+                   "libtoasty": info.get("libtoasty"), "results": results}, f)
 
 
 def replay_history(args):
@@ -407,7 +598,9 @@ def run(ctx):
     ctx.rule = ("configurations = (kind, user filter as accept set, apex) enumerated by the harness and handed to TLC; TLC explores "
                 "the iterator state machine for each, checks AssertsHold/DoneOK/StackShape and emits the terminal history; each emitted "
                 "configuration is rebuilt as a real Pyramid and compared step by step. distinct = distinct (kind, effective filter, apex); "
-                "non-trivial = at least one position visited")
+                "non-trivial = at least one position visited. Environment dimensions (spec/ReduceEnv.tla) on a stratified sub-family "
+                "(filters with a quadrant gap first): every callback-return policy through the serial and two-worker walks / leaf visits, "
+                "and asserts stripped = the same replay in one child interpreter started with -O")
     rng = ctx.rng
     depth = 2
     # ---- configurations at depth 2
@@ -427,7 +620,11 @@ def run(ctx):
         accepts.update(d2_all_filters())
         apexes = [ROOT, (1, 1, 0), (2, 2, 1)]
     kinds = ["generic", "toast"]
-    r = ctx.tlc("MCReduce", extra={"MCReduce.tla": mc_module(2, accepts, apexes, kinds, 4)}, cfg_text=CFG % 2,
+    # the environment dimensions (spec/ReduceEnv.tla) on a stratified sub-family: asserts stripped, callback-return policies
+    envpool = sorted(accepts, key=lambda a: (len(a), sorted(a)))[:: max(1, len(accepts) // 1500)]
+    opt2 = stratified(envpool, 2, 60 if ctx.quick else 400, 6 if ctx.quick else 40, rng)
+    cb2 = stratified(envpool, 2, 20 if ctx.quick else 150, 4 if ctx.quick else 20, rng)
+    r = ctx.tlc("MCReduce", extra={"MCReduce.tla": mc_module(2, accepts, apexes, kinds, 4, opt2, cb2)}, cfg_text=CFG % 2,
                 timeout=3000)
     recs = [(2, rec) for rec in r.json_lines("R")]
     ctx.note("d2_filters", len(accepts))
@@ -436,7 +633,8 @@ def run(ctx):
         # all 21 apexes on a stratified sub-family
         sub = set(list(accepts)[:: max(1, len(accepts) // 4000)])
         allapex = [q for n in range(3) for q in level(n)]
-        r2 = ctx.tlc("MCReduce", extra={"MCReduce.tla": mc_module(2, sub, allapex, kinds, 0)}, cfg_text=CFG % 2, timeout=3000)
+        r2 = ctx.tlc("MCReduce", extra={"MCReduce.tla": mc_module(2, sub, allapex, kinds, 0, stratified(sub, 2, 40, 4, rng), stratified(sub, 2, 12, 2, rng))},
+                     cfg_text=CFG % 2, timeout=3000)
         recs += [(2, rec) for rec in r2.json_lines("R")]
     # ---- depth 3 (and 1, 0): seeded filters
     n3 = 150 if ctx.quick else 4000
@@ -446,7 +644,9 @@ def run(ctx):
     while len(acc3) < n3:
         acc3.add(random_accept(rng, 3, rng.choice(["sparse", "mid", "dense"])))
     ap3 = [ROOT, (1, 0, 1), (2, 1, 2), (3, 5, 2), (3, 0, 0)] + ([(2, 3, 3), (1, 1, 1), (3, 7, 7)] if not ctx.quick else [])
-    r3 = ctx.tlc("MCReduce", extra={"MCReduce.tla": mc_module(3, acc3, ap3, kinds, 0)}, cfg_text=CFG % 3, timeout=3000)
+    opt3 = stratified(acc3, 3, 16 if ctx.quick else 300, 2 if ctx.quick else 20, rng)
+    cb3 = stratified(acc3, 3, 3 if ctx.quick else 80, 1 if ctx.quick else 10, rng)
+    r3 = ctx.tlc("MCReduce", extra={"MCReduce.tla": mc_module(3, acc3, ap3, kinds, 0, opt3, cb3)}, cfg_text=CFG % 3, timeout=3000)
     recs3 = [(3, rec) for rec in r3.json_lines("R")]
     recs += recs3
     # the same filters and apexes at depth 2: histories on one Pyramid object whose depth attribute is changed in between
@@ -455,6 +655,8 @@ def run(ctx):
     r32 = ctx.tlc("MCReduce", extra={"MCReduce.tla": mc_module(2, sub3, ap32, kinds, 0)}, cfg_text=CFG % 2, timeout=3000)
     by_key = {}
     for d, rec in recs3 + [(2, rec) for rec in r32.json_lines("R")]:
+        if rec["env"] != ENV_PLAIN:
+            continue
         k = (rec["kind"], tuple(sorted(tuple(p) for p in rec["acc"])), tuple(rec["apex"]))
         by_key.setdefault(k, {})[d] = rec
     histories = [[(3, v[3]), (2, v[2])] for v in by_key.values() if 2 in v and 3 in v]
@@ -465,8 +667,56 @@ def run(ctx):
     if not recs:
         ctx.machinery("TLC emitted no configurations")
     # ---- replay into the real code
+    allrecs = recs
+    recs = [x for x in allrecs if x[1]["env"] == ENV_PLAIN]
+    recs_opt = [x for x in allrecs if x[1]["env"][1]]
+    recs_cb = [x for x in allrecs if x[1]["env"][0] != "none" and not x[1]["env"][1]]
+    if len(recs) + len(recs_opt) + len(recs_cb) != len(allrecs) or not recs_opt or not recs_cb:
+        ctx.machinery("TLC emitted no configurations for the environment dimensions (asserts stripped: %d, callback returns: %d)"
+                      % (len(recs_opt), len(recs_cb)))
+    # the opt = TRUE configurations go to ONE child interpreter started with -O (it runs while the pool works)
+    import subprocess
+    import sys
+    from lib.core import VERIF
+    p_in, p_out = os.path.join(ctx.scratch, "opt_cases.json"), os.path.join(ctx.scratch, "opt_results.json")
+    with open(p_in, "w") as f:
+        json.dump(recs_opt, f)
+    child = subprocess.Popen([sys.executable, "-O", "-c",
+                              "import sys; sys.path.insert(0, %r); from checks import c13; c13.child_main(%r, %r)" % (VERIF, p_in, p_out)],
+                             cwd=VERIF, stdout=subprocess.PIPE, stderr=subprocess.STDOUT)
     with mp.Pool(16) as pool:
         results = pool.map(replay_case, recs, chunksize=64)
+        results_cb = pool.map(replay_cb, recs_cb, chunksize=8)
+    child_out = child.communicate(timeout=3000)[0].decode("utf-8", "replace")
+    if child.returncode != 0 or not os.path.exists(p_out):
+        ctx.machinery("the child interpreter (python -O) ended with %r: %s" % (child.returncode, child_out[-1500:]))
+    cres = json.load(open(p_out))
+    if not cres["asserts_stripped"] or cres["optimize"] < 1 or len(cres["results"]) != len(recs_opt):
+        ctx.machinery("the child interpreter did not run with asserts stripped / did not answer every case: %r" % ({k: v for k, v in cres.items() if k != "results"},))
+    ctx.note("asserts_stripped_interpreter", {"optimize": cres["optimize"], "toasty": cres["toasty"], "libtoasty": cres["libtoasty"],
+                                              "configurations": len(recs_opt),
+                                              "with_quadrant_gap": sum(1 for d_, rec_ in recs_opt if rec_["kind"] == "toast" and quadrant_gap(frozenset(tuple(q) for q in rec_["acc"]), d_))})
+    ctx.note("callback_return_cases", len(recs_cb))
+    for (res, nvis), (d, rec) in zip(cres["results"], recs_opt):
+        ctx.count()
+        ctx.trace_ok()
+        if nvis > 0:
+            ctx.distinct((d, rec["kind"], tuple(sorted(tuple(q) for q in rec["acc"])), tuple(rec["apex"]), "python-O"))
+        for sev, k, msg, case in res:
+            if sev == "V":
+                ctx.violation("C13:" + k, msg, {"case": case, "interpreter": "python -O"})
+            else:
+                ctx.drift("%s %s (case %s)" % (k, msg, case))
+    for (res, nvis, key), (d, rec) in zip(results_cb, recs_cb):
+        ctx.count()
+        ctx.trace_ok()
+        if nvis > 0:
+            ctx.distinct((d,) + key)
+        for sev, k, msg, case in res:
+            if sev == "V":
+                ctx.violation("C13:" + k, msg, {"case": case})
+            else:
+                ctx.drift("%s %s (case %s)" % (k, msg, case))
     for (res, nvis, key), (d, rec) in zip(results, recs):
         ctx.count()
         ctx.trace_ok()
@@ -485,9 +735,10 @@ def run(ctx):
         for sev, k, msg, case in res:
             ctx.violation("C13:" + k, msg, {"case": case})
     ctx.note("object_histories_replayed", len(histories))
-    for d, rec in recs[:3] + recs[len(recs) // 2: len(recs) // 2 + 2]:
+    for d, rec in recs[:3] + recs[len(recs) // 2: len(recs) // 2 + 2] + recs_opt[:1] + recs_cb[len(recs_cb) // 2: len(recs_cb) // 2 + 1]:
         ctx.sample({"depth": d, "kind": rec["kind"], "apex": rec["apex"], "accept": rec["acc"][:12],
-                    "history": [[o["pos"], o["leaf"]] for o in rec["out"][:12]], "final": rec["final"]})
+                    "history": [[o["pos"], o["leaf"]] for o in rec["out"][:12]], "final": rec["final"],
+                    "environment": {"callback_returns": rec["env"][0], "asserts_stripped": rec["env"][1]}})
     # ---- the relation algebra on seeded deep positions: TLC evaluates, the real functions must agree
     cases = algebra_samples(rng, 400 if ctx.quick else 6000, 27)
     defs = [("Cases", tla.lit(cases)),
